@@ -17,10 +17,13 @@ REPO = Path(os.environ.get("VERIF_REPO", "/repo"))
 DRIVER = LEAN / ".lake" / "build" / "bin" / "mzdriver"
 ALLOWED_AXIOMS = {"propext", "Classical.choice", "Quot.sound"}
 # theorem-name-prefix -> extra axioms accepted there (named in DESIGN.md trusted base)
-EXTRA_AXIOMS: dict[str, set[str]] = {}
+EXTRA_AXIOMS: dict[str, str] = {
+    "C19_uniform_": r"MZ\.WProb\.table_\dx\d\._native\.native_decide\.ax_\w+|Lean\.ofReduceBool|Lean\.trustCompiler",
+    "C19_full_partial_holds": r"MZ\.WProb\.table_\dx\d\._native\.native_decide\.ax_\w+|Lean\.ofReduceBool|Lean\.trustCompiler",
+    "C19_every_tree_appears_": r"MZ\.WProb\.table_\dx\d\._native\.native_decide\.ax_\w+|Lean\.ofReduceBool|Lean\.trustCompiler"}
 FORBIDDEN = re.compile(r"\b(sorry|admit|native_decide|bv_decide|implemented_by|unsafe)\b|^axiom\s|maxHeartbeats\s+0\b")
 # files where `native_decide` is allowed (named in the trusted base)
-NATIVE_DECIDE_OK: set[str] = set()
+NATIVE_DECIDE_OK: set[str] = {"C19Tables.lean", "C19Table33.lean"}
 
 
 def sh(cmd, cwd=None, timeout=None, env=None):
@@ -127,7 +130,7 @@ def audit(pid: str, workdir: Path) -> dict:
         extra = set(axs) - ALLOWED_AXIOMS
         for pref, ok in EXTRA_AXIOMS.items():
             if n.split(".")[-1].startswith(pref):
-                extra -= ok
+                extra = {a for a in extra if not re.fullmatch(ok, a)}
         if extra:
             bad.append(f"{n}: unexpected axioms {sorted(extra)}")
     return dict(names=names, examples=examples, axioms=res, bad=bad, rc=rc, log=txt[-4000:] if (rc or bad) else "")
